@@ -19,7 +19,8 @@ EXPLANATION = (
     'the key they are given verbatim: one look-up, one insert; (R6) every node and the root search ALL legal moves: the list iterated '
     "is the generator's list for (board, side to move) passed only through reordering functions (sort / reverse / swap), nothing is "
     'filtered, truncated or dropped. Numerical equality with minimax (soundness of pruning as arithmetic) and hash collisions are NOT '
-    'decided. (R7) no value depends on a visit counter (imports C09.R2).'
+    'decided. (R7) no value depends on a visit counter (imports C09.R2). R2 reports a recursive call that hands the child anything '
+    'beyond (depth-1, window, side).'
 )
 ASSUMPTIONS = [
     "alpha-beta pruning with the window discipline pinned by R2/R3 returns the minimax value (textbook theorem, not re-proved)",
